@@ -229,7 +229,10 @@ fn lifecycle() -> Option<String> {
     // was released and B installed; neither sees the other's events
     let (txa, rxa) = sync_channel::<LogEvent>(8);
     let (txb, rxb) = sync_channel::<LogEvent>(8);
-    let ga = match set_global_logger(txa) { Ok(g) => g, Err(_) => return Some("log scenario=lifecycle expected=logger installed actual=already set".into()) };
+    // with no logger installed a call goes to the stdout default (started on demand); a logger installed afterwards replaces it
+    let r0 = servlin::log::info("to the stdout default", ()).is_ok();
+    if !r0 { return Some("log scenario=lifecycle expected=Ok from a call with no logger installed (stdout default) actual=Err".into()); }
+    let ga = match set_global_logger(txa) { Ok(g) => g, Err(_) => return Some("log scenario=lifecycle expected=logger installed over the stdout default actual=already set".into()) };
     let r1 = servlin::log::info("one", ()).is_ok();
     let refused = set_global_logger(txb.clone()).is_err();
     let r2 = servlin::log::info("two", ()).is_ok();
